@@ -150,6 +150,7 @@ pub struct St {
     pub flags: u64,
     pub dig: u64,
     pub opts: Opts,
+    pub unwinding: bool,
     /// leaks are tolerated from now on (a destructor panic was injected)
     pub leak_ok: bool,
     /// a non-destructor user panic was injected: leak checks are deferred to the final drop
@@ -211,7 +212,7 @@ impl St {
             _ => ledger::start_count(),
         }
         let buf = &mut **self.buf.as_mut().expect("buffer present");
-        let r = catch_unwind(AssertUnwindSafe(move || f(buf)));
+        let r = guarded(self.unwinding, move || f(buf));
         let c = ledger::counts();
         for i in 0..5 {
             self.op_counts[i] += c[i];
@@ -238,7 +239,7 @@ impl St {
             }
             _ => ledger::start_count(),
         }
-        let r = catch_unwind(AssertUnwindSafe(f));
+        let r = guarded(self.unwinding, f);
         let c = ledger::counts();
         for i in 0..5 {
             self.op_counts[i] += c[i];
@@ -582,6 +583,36 @@ pub fn run_case(case: &Case, opts: Opts) -> Result<Outcome, Failure> {
     r
 }
 
+/// Payload of the outer panic of `guarded`.
+struct OuterUnwind;
+
+/// Runs `f` under catch_unwind; with `unwinding`, from inside a destructor that runs while the thread is unwinding
+/// from an unrelated panic, so that `std::thread::panicking()` is true for the whole call.
+pub(crate) fn guarded<T>(unwinding: bool, f: impl FnOnce() -> T) -> std::thread::Result<T> {
+    if !unwinding {
+        return catch_unwind(AssertUnwindSafe(f));
+    }
+    struct OnDrop<F: FnOnce()>(Option<F>);
+    impl<F: FnOnce()> Drop for OnDrop<F> {
+        fn drop(&mut self) {
+            if let Some(f) = self.0.take() {
+                f()
+            }
+        }
+    }
+    let mut out: Option<std::thread::Result<T>> = None;
+    {
+        let slot = &mut out;
+        let _ = catch_unwind(AssertUnwindSafe(move || {
+            let _g = OnDrop(Some(move || {
+                *slot = Some(catch_unwind(AssertUnwindSafe(f)));
+            }));
+            std::panic::resume_unwind(Box::new(OuterUnwind));
+        }));
+    }
+    out.expect("the destructor ran")
+}
+
 pub(crate) fn new_state(case: &Case, opts: Opts) -> St {
     let n = case.n as usize;
     St {
@@ -599,6 +630,7 @@ pub(crate) fn new_state(case: &Case, opts: Opts) -> St {
         flags: 0,
         dig: 0xcbf29ce484222325,
         opts,
+        unwinding: case.unwinding,
         leak_ok: false,
         deferred_leak_check: false,
         max_reloc: 0,
